@@ -27,7 +27,7 @@ NOTES = {
  "C17-m4": "needed the `tiny_merges` scenario (thousands of one-value digests merged into a large one, k up to 400)",
  "C18-m3": "needed restore through the stream reader", "C18-m4": "needed exact (==) comparison of the merged cumulative weight with the sum",
  "C19-m3": "needed world `c19o` and reading lent operands after the operation", "C19-m4": "needed world `c19o` (operators as lifecycle objects)",
- "C20-m3": "needed refusals placed on the capacity boundary and the rule 'no compaction up to k points'",
+ "C20-m3": "needed refusals placed on the capacity boundary and the rule 'a refused operation leaves the observation unchanged'",
 }
 res = {}
 p = os.path.join(ROOT, "seeded", "RESULTS.txt")
